@@ -173,6 +173,50 @@ func runC15(c *Ctx, r *Run) {
 					}
 				}
 			})
+			// whole-struct conversions between the object and a wire struct with the same field set
+			// (`cbor.Marshal((*wire)(m))`, `*m = T(decoded)`): every field is carried over under its own name
+			convAll := func(f *ssa.Function, fromObj bool, visit func(W *types.Named)) {
+				allInstrs(f, func(in ssa.Instruction) {
+					var x ssa.Value
+					var to types.Type
+					switch y := in.(type) {
+					case *ssa.ChangeType:
+						x, to = y.X, y.Type()
+					case *ssa.Convert:
+						x, to = y.X, y.Type()
+					default:
+						return
+					}
+					from := namedOf(derefType(x.Type()))
+					dst := namedOf(derefType(to))
+					if from == nil || dst == nil {
+						return
+					}
+					if fromObj && from == T && wire[dst] {
+						visit(dst)
+					}
+					if !fromObj && dst == T && (wire[from] || unWire[from]) {
+						visit(from)
+					}
+				})
+			}
+			convMar := map[string]string{}
+			convAll(mar, true, func(W *types.Named) {
+				wst := W.Underlying().(*types.Struct)
+				for i := 0; i < wst.NumFields(); i++ {
+					written[W.Obj().Name()+"."+wst.Field(i).Name()] = true
+					convMar[W.Obj().Name()+"."+wst.Field(i).Name()] = wst.Field(i).Name()
+				}
+			})
+			convUnm := map[string]string{}
+			convAll(unm, false, func(W *types.Named) {
+				wst := W.Underlying().(*types.Struct)
+				for i := 0; i < wst.NumFields(); i++ {
+					read[W.Obj().Name()+"."+wst.Field(i).Name()] = true
+					assigned[wst.Field(i).Name()] = true
+					convUnm[W.Obj().Name()+"."+wst.Field(i).Name()] = wst.Field(i).Name()
+				}
+			})
 			// CODEC-5: the two directions are inverse of each other. For a wire field filled from exactly one field
 			// G of the encoded object, the fields restored from that wire field must include G.
 			isWire := func(n *types.Named) bool { return n != nil && (wire[n] || unWire[n]) }
@@ -269,6 +313,18 @@ func runC15(c *Ctx, r *Run) {
 					})
 				})
 			})
+			for k, f := range convMar {
+				if _, has := marSrc[k]; !has {
+					marSrc[k] = []string{f}
+					marPos[k] = c.Pos(mar.Pos())
+				}
+			}
+			for k, f := range convUnm {
+				if unmDst[k] == nil {
+					unmDst[k] = map[string]bool{}
+				}
+				unmDst[k][f] = true
+			}
 			var wkeys []string
 			for k := range marSrc {
 				wkeys = append(wkeys, k)
